@@ -675,6 +675,9 @@ def run(ctx):
     from . import c04
     sub = SubCtx(ctx, 'C02.names', 'the name table and the variant blocks are part of the emitted bytes: their sources (one entry per control name, one full-width block per variant), as decided for C04')
     c04.rule_names(sub)
+    from . import c01
+    sub_c01 = SubCtx(ctx, 'C02.order', 'every input of an emitted unit is an emitted unit: a rewrite of the optimiser rewires every slot that held the replaced unit (a stale reference never becomes available in the sort, its reader and everything downstream is dropped without an error), as decided for C01')
+    c01.rule_opt(sub_c01)
     rule_multiout(ctx)
     # the bytes of a definition are cached only after the writer returned: a write that raises must not leave a truncated
     # prefix behind that later as_bytes()/send() hand out
